@@ -212,7 +212,8 @@ def _with_comment(kind, at, text):
     if kind == "trail_block":
         a = at % NBL
         return s[:a] + [s[a] + " /*" + text + " */"] + s[a + 1:], [text + " "]
-    return s[:at] + ["/*" + text, "more" + text, "*/"] + s[at:], ["/*" + text, "more" + text, "*/"]
+    mid = text.strip() or "x"  # the middle line starts with the text's first word (may be USE / INSERT / GO ...)
+    return s[:at] + ["/*" + text, mid, "  " + mid, "*/"] + s[at:], ["/*" + text, mid, "  " + mid, "*/"]
 
 
 def _squeeze(x: str) -> str:
